@@ -396,7 +396,7 @@ class _Select(Entry):
     def cases(self, ctx, round=0):
         r = ctx.rng
         cs = []
-        for _ in range(ctx.n(260, 5000)):
+        for _ in range(ctx.n(220, 3000)):
             arr = gen_array(r, ctx)
             kind, sel = gen_selection(r, [f["name"] for f in arr["fields"]])
             c = {"arr": arr, "names": gen_form(r, sel), "family": "%s/%s/%dd" % (kind, "?", len(arr["shape"]))}
@@ -487,7 +487,7 @@ class Add(Entry):
     def cases(self, ctx, round=0):
         r = ctx.rng
         cs = []
-        for _ in range(ctx.n(260, 5000)):
+        for _ in range(ctx.n(220, 3000)):
             arr = gen_array(r, ctx)
             have = [f["name"] for f in arr["fields"]]
             k = r.choice([1, 1, 2, 2, 3, 4])
@@ -583,7 +583,7 @@ class Combine(Entry):
     def cases(self, ctx, round=0):
         r = ctx.rng
         cs = []
-        for _ in range(ctx.n(260, 5000)):
+        for _ in range(ctx.n(220, 3000)):
             shape = gen_shape(r, ctx)
             k = r.choice([1, 2, 2, 2, 3, 3, 4])
             kind = r.choice(["same", "same", "same", "same", "same", "size-differs", "shared-name", "mixed-shape", "empty"])
@@ -646,7 +646,7 @@ class Copy(Entry):
     def cases(self, ctx, round=0):
         r = ctx.rng
         cs = []
-        for _ in range(ctx.n(260, 5000)):
+        for _ in range(ctx.n(220, 3000)):
             a1 = gen_array(r, ctx)
             kind = r.choice(["same-shape", "same-shape", "same-shape", "same-shape", "size-differs", "lead-1",
                              "incompatible-shape", "disjoint"])
@@ -697,7 +697,7 @@ class CopyByName(Entry):
     def cases(self, ctx, round=0):
         r = ctx.rng
         cs = []
-        for _ in range(ctx.n(260, 5000)):
+        for _ in range(ctx.n(220, 3000)):
             arr = gen_array(r, ctx)
             fs = {f["name"]: f for f in arr["fields"]}
             kind, sel = gen_selection(r, list(fs))
@@ -756,7 +756,7 @@ class Split(Entry):
     def cases(self, ctx, round=0):
         r = ctx.rng
         cs = []
-        for _ in range(ctx.n(200, 4000)):
+        for _ in range(ctx.n(180, 2400)):
             arr = gen_array(r, ctx)
             if r.random() < 0.2:
                 na, kind = None, "all"
@@ -883,7 +883,7 @@ class Compare(Entry):
     def cases(self, ctx, round=0):
         r = ctx.rng
         cs = []
-        for _ in range(ctx.n(300, 5000)):
+        for _ in range(ctx.n(240, 3000)):
             a1 = gen_array(r, ctx, mode=r.choice(["values", "finite", "finite"]))
             kind = r.choice(["copy", "copy", "byteswapped", "one-item", "one-item", "fields-differ", "reordered",
                              "shape-differs", "sub-differs", "neg-zero", "nan", "wider-string", "size-differs"])
